@@ -443,13 +443,23 @@ func (r *tamperRun) Main(s *sim.Sim) {
 	// nothing that was not sent may ever be delivered
 	for _, dl := range srvDelivered {
 		if dl.marker == 0 || !dl.payloadOK {
-			s.Fail(prop, "forged-message-delivered", "server-delivered-garbage", "the server channel delivered a message nobody sent (request id %d, marker %d) after %s of a %s chunk; %s/%d", dl.reqID, dl.marker, r.Plan.Kind, r.Plan.Dir, r.Cfg.Policy, r.Cfg.Mode)
+			sig := "server-delivered-garbage"
+			if r.Mode == "c10" && r.Plan.Later == 0 {
+				// a verbatim copy right behind its original is filtered by the receiver on the
+				// unchanged tree (only later re-insertion is the catalogued finding)
+				sig = "server-delivered-garbage-after-adjacent-duplicate"
+			}
+			s.Fail(prop, "forged-message-delivered", sig, "the server channel delivered a message nobody sent (request id %d, marker %d) after %s of a %s chunk; %s/%d", dl.reqID, dl.marker, r.Plan.Kind, r.Plan.Dir, r.Cfg.Policy, r.Cfg.Mode)
 			return
 		}
 	}
 	for i, res := range results {
 		if res.garbage {
-			s.Fail(prop, "forged-message-delivered", "client-delivered-garbage", "request %d: the client channel handed a response nobody sent to the caller after %s of a %s chunk", i, r.Plan.Kind, r.Plan.Dir)
+			sig := "client-delivered-garbage"
+			if r.Mode == "c10" && r.Plan.Later == 0 {
+				sig = "client-delivered-garbage-after-adjacent-duplicate"
+			}
+			s.Fail(prop, "forged-message-delivered", sig, "request %d: the client channel handed a response nobody sent to the caller after %s of a %s chunk", i, r.Plan.Kind, r.Plan.Dir)
 			return
 		}
 	}
